@@ -9,9 +9,12 @@ Impl/Dataset.inl on every run by `translate/batch_arith.py`).
 Sections
   A  batch arithmetic (`optimalBatchSizes`, all n, m)            — on the generated definition
   B  every structural operation of `Data` maps the flat element sequence as documented
-  C  the element iterator: elements(), element(i), reverse iteration and batches() agree
+     (incl. the element-by-element copy loop of `repartition`, indexed subsets and complements)
+  C  the element iterator: elements(), element(i), reverse iteration and batches() agree; `it += n` for signed n
   D  LabeledData: inputs and labels stay in the same partitioning, pairs are never separated
-  E  arbitrary operation histories
+     (createFromRange, repartition, splitBatch, splice, splitAtElement, append, indexedSubset, reorder, transform)
+  E  arbitrary operation histories on one dataset and on two datasets exchanging elements; DataView / toDataset
+  F  class-wise operations: repartitionByClass, binarySubProblem, oneVersusRest
 
 All statements quantify over every element type, element count, batch size and
 partition; nothing is bounded.  Hypotheses of the form `op … = .ok d'` select
